@@ -71,9 +71,8 @@ def generic_replay(ctx, prop, payload):
     return 0
 
 
-WALK_CONFIGS = ["default", "secwithin", "required", "cautious", "within_req", "f_copy_all", "f_TRS_desc", "f_desc_STR",
-                "f_S_desc_TR", "f_TR_desc_S"]
-WALK_INVS = ["Conservation", "AtLeastOneTractW", "FallBackIsWhole", "MustFallBackAgrees"]
+WALK_CONFIGS = ALL_CONFIGS
+WALK_INVS = ["Conservation", "AtLeastOneTractW", "FallBackIsWhole", "MustFallBackAgrees", "ChunksDisjoint"]
 
 
 def walk_conformance(ctx, maxtok=3, keep=1.0, alphabet="full", faults=True):
@@ -84,7 +83,8 @@ def walk_conformance(ctx, maxtok=3, keep=1.0, alphabet="full", faults=True):
     if faults:
         ctx.tlc("PlssWalk", dict(base, MaxTok=2, Fault="none", EmitCases=False), invariants=WALK_INVS, spec="WSpec",
                 coverage=True, count=False)
-        ctx.require_actions(["WChoose", "FindMatches", "Prime", "WalkStep", "AfterWalk", "SecWithin", "FallBack", "Finish"])
+        ctx.require_actions(["WChoose", "Segment", "FindMatches", "Prime", "WalkStep", "AfterWalk", "SecWithin", "FallBack",
+                             "EndChunk", "Top", "Finish"])
         ctx.tlc("PlssWalk", dict(base, Fault="drop_unused", EmitCases=False), invariants=WALK_INVS, spec="WSpec",
                 expect_violation="drop_unused", count=False)
         ctx.tlc("PlssWalk", dict(base, Fault="double_handoff", EmitCases=False), invariants=WALK_INVS, spec="WSpec",
